@@ -1,8 +1,264 @@
 (* C10 — PubSub delivers every event exactly once to every subscriber.
-   Statements only; every proof is [exact] of a lemma of Chans/PubSubProofs.v. *)
-From Typ Require Import Lib.Base Chans.PubSubModel Chans.PubSubProofs.
+   Statements only; every proof is [exact] of a lemma of Chans/PubSubProofs.v
+   or Chans/PubSubTrace.v.
 
-(* The known finding (DESIGN section 5 row 13), in theorem form. *)
+   The model (Chans/PubSubModel.v) is a small-step machine transcribed from
+   chans/pubsub.go and SendTimeout of chans/chans.go: one step per lock
+   operation, channel operation (send / select with timer / receive / close),
+   wg.Add/Done/Wait, go statement and OnPubTimeout call. Quantifiers of every
+   run-level theorem: every configuration of the root PubSub (PubTimeoutAfter
+   [timeout], OnPubTimeout set or nil [cb], DefaultBuffer [defbuf]), every number
+   of threads and every program per thread [progs] (any sequence of Pub,
+   PubSlice, PubWait, PubSliceWait, PubSync, PubSliceSync, WithOnly, Sub, SubBuf,
+   Unsub, UnsubAll on any PubSub object, receives and range loops on any channel;
+   any events, slice lengths, buffer sizes), every schedule [s] (any interleaving
+   of the atomic steps, any choice of select branch and rendezvous partner;
+   entries naming a disabled thread are skipped; no length bound).
+   [run (init timeout cb defbuf progs) s] is thus an arbitrary reachable
+   configuration. [c_trace] is a ghost log of the steps taken, NEWEST FIRST.
+   A publish call is identified by [callid] = (thread, index of the call in the
+   thread, variant); a pair = (index of the event in the slice, event,
+   subscriber channel). Channels, select/timers, RWMutex and WaitGroup are the
+   trusted abstract machines described at the top of PubSubModel.v. *)
+From Typ Require Import Lib.Base Chans.PubSubModel Chans.PubSubProofs Chans.PubSubTrace.
+
+(* ---------------------------------------------------------------- *)
+(* Unsub, UnsubAll, WithOnly: what one call does                      *)
+(* ---------------------------------------------------------------- *)
+
+(* In every reachable configuration the subscription lists are duplicate
+   free and name existing channels (hypotheses of the theorems below). *)
+Theorem C10_subscriptions_wellformed : forall timeout cb defbuf progs s o ob,
+  nth_error (c_objs (run (init timeout cb defbuf progs) s)) o = Some ob ->
+  NoDup (o_subs ob) /\
+  forall ci, In ci (o_subs ob) -> ci < length (c_chans (run (init timeout cb defbuf progs) s)).
+Proof.
+  exact (fun timeout cb defbuf progs s o ob H =>
+    let W := wf_inv_run timeout cb defbuf progs s in
+    conj (proj1 (proj2 W) o ob H) (fun ci Hi => proj1 W o ob ci H Hi)).
+Qed.
+Print Assumptions C10_subscriptions_wellformed.
+
+(* Unsub(nil) returns ErrSubscriptionNotInitalized in one step and changes
+   nothing else (in any configuration, whatever the other threads are doing). *)
+Theorem C10_unsub_nil : forall c t th o rest ch,
+  c_panic c = None -> nth_error (c_threads c) t = Some th ->
+  th_pc th = PIdle -> th_prog th = CUnsub o None :: rest ->
+  step c t ch = Some (set_thread c t (Thread rest PIdle (th_rets th ++ [RErr ErrSubscriptionNotInitalized]))).
+Proof. exact unsub_nil_step. Qed.
+Print Assumptions C10_unsub_nil.
+
+(* Unsub of a channel that is not subscribed (never was, already removed, or
+   foreign): ErrAlreadyUnsubscribed; subscriptions, channels, ghost log and all
+   other threads unchanged; the lock is free again. *)
+Theorem C10_unsub_unknown : forall c t th o ob sub rest ch1 ch2,
+  c_panic c = None -> nth_error (c_threads c) t = Some th ->
+  th_pc th = PIdle -> th_prog th = CUnsub o (Some sub) :: rest ->
+  nth_error (c_objs c) o = Some ob -> lock_free t ob = true ->
+  ~ In sub (o_subs ob) ->
+  run c [(t, ch1); (t, ch2)] =
+  Config (upd o (set_wr ob None) (c_objs c)) (c_chans c) (c_wg c)
+         (upd t (Thread rest PIdle (th_rets th ++ [RErr ErrAlreadyUnsubscribed])) (c_threads c))
+         (c_trace c) None.
+Proof. exact unsub_unknown_solo. Qed.
+Print Assumptions C10_unsub_unknown.
+
+(* Unsub of a subscribed channel: returns nil; closes exactly that channel
+   (buffer kept) and removes exactly it; every other subscription, channel and
+   thread is unchanged; one EClose is logged. *)
+Theorem C10_unsub_known : forall c t th o ob sub rest chn ch1 ch2 ch3,
+  c_panic c = None -> nth_error (c_threads c) t = Some th ->
+  th_pc th = PIdle -> th_prog th = CUnsub o (Some sub) :: rest ->
+  nth_error (c_objs c) o = Some ob -> lock_free t ob = true ->
+  In sub (o_subs ob) -> NoDup (o_subs ob) ->
+  nth_error (c_chans c) sub = Some chn -> ch_closed chn = false ->
+  run c [(t, ch1); (t, ch2); (t, ch3)] =
+  Config (upd o (set_wr (set_subs ob (remove Nat.eq_dec sub (o_subs ob))) None) (c_objs c))
+         (upd sub (Chan (ch_buf chn) (ch_cap chn) true) (c_chans c)) (c_wg c)
+         (upd t (Thread rest PIdle (th_rets th ++ [RNil])) (c_threads c))
+         (EClose t o sub :: c_trace c) None.
+Proof. exact unsub_known_solo. Qed.
+Print Assumptions C10_unsub_known.
+
+(* UnsubAll: returns nil; closes exactly the subscribed channels, in order,
+   leaves the subscription list empty, touches nothing else. *)
+Theorem C10_unsuball : forall c t th o ob rest,
+  c_panic c = None -> nth_error (c_threads c) t = Some th ->
+  th_pc th = PIdle -> th_prog th = CUnsubAll o :: rest ->
+  nth_error (c_objs c) o = Some ob -> lock_free t ob = true ->
+  NoDup (o_subs ob) -> (forall ci, In ci (o_subs ob) -> is_open (c_chans c) ci) ->
+  run c (repeat (t, Plain) (length (o_subs ob) + 2)) =
+  Config (upd o (set_wr (set_subs ob []) None) (c_objs c))
+         (close_all (o_subs ob) (c_chans c)) (c_wg c)
+         (upd t (Thread rest PIdle (th_rets th ++ [RNil])) (c_threads c))
+         (rev (map (EClose t o) (o_subs ob)) ++ c_trace c) None.
+Proof. exact unsuball_solo. Qed.
+Print Assumptions C10_unsuball.
+
+Theorem C10_unsuball_closes_exactly : forall l chs ci,
+  (~ In ci l -> nth_error (close_all l chs) ci = nth_error chs ci) /\
+  (forall chn, In ci l -> nth_error chs ci = Some chn ->
+     nth_error (close_all l chs) ci = Some (Chan (ch_buf chn) (ch_cap chn) true)).
+Proof. exact (fun l chs ci => conj (close_all_notin l chs ci) (fun chn => close_all_in l chs ci chn)). Qed.
+Print Assumptions C10_unsuball_closes_exactly.
+
+(* WithOnly(sub): a new PubSub listing exactly [sub] if it is subscribed
+   (nothing for nil or an unknown channel), same timeout configuration; the
+   parent, the channels and the log are unchanged. A publish on the view
+   therefore targets that one subscription only (C10_resolved_was_subscribed). *)
+Theorem C10_withonly : forall c t th o ob sub rest ch1 ch2,
+  c_panic c = None -> nth_error (c_threads c) t = Some th ->
+  th_pc th = PIdle -> th_prog th = CWithOnly o sub :: rest ->
+  nth_error (c_objs c) o = Some ob -> rlock_free ob = true -> NoDup (o_subs ob) ->
+  run c [(t, ch1); (t, ch2)] =
+  Config (c_objs c ++
+            [PsObj (match sub with
+                    | Some s => if in_dec Nat.eq_dec s (o_subs ob) then [s] else []
+                    | None => []
+                    end) [] None None (o_timeout ob) (o_cb ob) 0%Z])
+         (c_chans c) (c_wg c)
+         (upd t (Thread rest PIdle (th_rets th ++ [RView (length (c_objs c))])) (c_threads c))
+         (c_trace c) None.
+Proof. exact withonly_solo. Qed.
+Print Assumptions C10_withonly.
+
+(* Nothing is handed to a channel after the step that closed (removed) it,
+   in any run; and it stays closed. *)
+Theorem C10_nothing_after_removal : forall timeout cb defbuf progs s later t o ci earlier,
+  c_trace (run (init timeout cb defbuf progs) s) = later ++ EClose t o ci :: earlier ->
+  (forall k p, In (EHandoff k p) later -> p_sub p <> ci) /\
+  is_closed (c_chans (run (init timeout cb defbuf progs) s)) ci.
+Proof. exact nothing_after_close. Qed.
+Print Assumptions C10_nothing_after_removal.
+
+(* ---------------------------------------------------------------- *)
+(* Delivery                                                           *)
+(* ---------------------------------------------------------------- *)
+
+(* What receivers have received from a channel, in order, followed by what
+   its buffer holds, is exactly what was handed to it, in order: the receives
+   are a prefix of the hand-offs (nothing lost, duplicated, reordered or
+   invented), for any receiver programs. *)
+Theorem C10_received_is_handed : forall timeout cb defbuf progs s ci chn,
+  let c := run (init timeout cb defbuf progs) s in
+  nth_error (c_chans c) ci = Some chn ->
+  handed_to ci c = received_from ci c ++ ch_buf chn /\ length (ch_buf chn) <= ch_cap chn.
+Proof. exact fifo_conservation. Qed.
+Print Assumptions C10_received_is_handed.
+
+(* Conservation, for every publish variant: each (call, event index,
+   subscriber) pair is resolved (handed off or timed out) at most once at all
+   times; its send() returns at most once; once send() has returned it has
+   been resolved exactly once; and only pairs built at the call's read-lock
+   step are ever resolved (at most one of each). *)
+Theorem C10_conservation : forall timeout cb defbuf progs s k p,
+  let c := run (init timeout cb defbuf progs) s in
+  res_count k p c <= 1 /\ done_count k p c <= 1 /\
+  (1 <= done_count k p c -> res_count k p c = 1) /\
+  res_count k p c <= exp_count k p c /\ exp_count k p c <= 1.
+Proof. exact conservation. Qed.
+Print Assumptions C10_conservation.
+
+(* A hand-off or timeout of call k concerns a channel that was subscribed, at
+   the call's read-lock step, to the PubSub the call was made on (the root, or
+   the one-subscription view made by WithOnly). *)
+Theorem C10_resolved_was_subscribed : forall timeout cb defbuf progs s k p,
+  let c := run (init timeout cb defbuf progs) s in
+  In (EHandoff k p) (c_trace c) \/ (exists b, In (ETimeout k p b) (c_trace c)) ->
+  exists o evs subs, In (ERLock k o evs subs) (c_trace c) /\
+                     In p (pub_ps (fst (k_var k)) evs subs) /\ In (p_sub p) subs.
+Proof. exact resolved_was_subscribed. Qed.
+Print Assumptions C10_resolved_was_subscribed.
+
+(* PubWait, PubSliceWait, PubSync and PubSliceSync return only after every
+   pair of the call has finished: in the log BEFORE the return of call k, every
+   pair the call set out to deliver has had its send() return (counts per pair;
+   both are at most 1 by C10_conservation). *)
+Theorem C10_wait_returns_after : forall timeout cb defbuf progs s later k earlier,
+  c_trace (run (init timeout cb defbuf progs) s) = later ++ EPubRet k :: earlier ->
+  snd (k_var k) <> Async ->
+  forall p, total (ev_exp k p) earlier = total (ev_done k p) earlier.
+Proof. exact wait_returns_after. Qed.
+Print Assumptions C10_wait_returns_after.
+
+(* Exactly one of a delivery or a timeout, and exactly one OnPubTimeout call
+   per timeout taken with the callback set: at all times hand-offs + timeouts
+   of a pair <= 1 and callbacks <= timeouts taken with the callback set; once
+   the pair's send() has returned, hand-offs + timeouts = 1 and callbacks =
+   timeouts taken with the callback set. *)
+Theorem C10_delivery_or_timeout : forall timeout cb defbuf progs s k p,
+  let tr := c_trace (run (init timeout cb defbuf progs) s) in
+  total (ev_handoff k p) tr + total (ev_timeout k p) tr <= 1 /\
+  total (ev_cb k p) tr <= total (ev_tcb k p) tr /\ total (ev_tcb k p) tr <= total (ev_timeout k p) tr /\
+  (1 <= total (ev_done k p) tr ->
+     total (ev_handoff k p) tr + total (ev_timeout k p) tr = 1 /\ total (ev_cb k p) tr = total (ev_tcb k p) tr).
+Proof. exact delivery_or_timeout. Qed.
+Print Assumptions C10_delivery_or_timeout.
+
+(* A timeout is taken only by a call made on a PubSub whose PubTimeoutAfter is
+   positive, and the flag of the event is that PubSub's "OnPubTimeout != nil". *)
+Theorem C10_timeout_needs_config : forall timeout cb defbuf progs s k p b,
+  let c := run (init timeout cb defbuf progs) s in
+  In (ETimeout k p b) (c_trace c) ->
+  exists o evs subs tm, In (ERLock k o evs subs) (c_trace c) /\ ocfg c o = Some (tm, b) /\ (0 < tm)%Z.
+Proof. exact timeout_needs_config. Qed.
+Print Assumptions C10_timeout_needs_config.
+
+(* With PubTimeoutAfter <= 0 a finished pair was handed off (exactly once). *)
+Theorem C10_no_timeout_means_handoff : forall timeout cb defbuf progs s k p,
+  let c := run (init timeout cb defbuf progs) s in
+  (forall o evs subs tm b, In (ERLock k o evs subs) (c_trace c) -> ocfg c o = Some (tm, b) -> (tm <= 0)%Z) ->
+  1 <= total (ev_done k p) (c_trace c) -> total (ev_handoff k p) (c_trace c) = 1.
+Proof. exact no_timeout_means_handoff. Qed.
+Print Assumptions C10_no_timeout_means_handoff.
+
+(* PubSync and PubSliceSync resolve their pairs in publication order: when
+   the call returns, the sequence of pairs it handed off or timed out, oldest
+   first, is the list built at its read-lock step: for each event of the slice
+   in order, every subscriber in subscription order. So every subscriber gets
+   the events of a Sync call in publication order. *)
+Theorem C10_sync_order : forall timeout cb defbuf progs s later k earlier,
+  c_trace (run (init timeout cb defbuf progs) s) = later ++ EPubRet k :: earlier ->
+  snd (k_var k) = Sync ->
+  exists o evs subs, In (ERLock k o evs subs) earlier /\
+                     rev (res_rev k earlier) = pub_ps (fst (k_var k)) evs subs.
+Proof. exact sync_order. Qed.
+Print Assumptions C10_sync_order.
+
+(* Channels are closed by the close steps of Unsub/UnsubAll only. *)
+Theorem C10_closed_only_by_unsub : forall timeout cb defbuf progs s ci,
+  is_closed (c_chans (run (init timeout cb defbuf progs) s)) ci ->
+  exists t o, In (EClose t o ci) (c_trace (run (init timeout cb defbuf progs) s)).
+Proof. exact closed_only_by_unsub. Qed.
+Print Assumptions C10_closed_only_by_unsub.
+
+(* ---------------------------------------------------------------- *)
+(* No panic                                                           *)
+(* ---------------------------------------------------------------- *)
+
+(* For all variants: no run panics in which every close step (of Unsub or
+   UnsubAll) happens while no asynchronous sender goroutine for the channel
+   being closed is alive and no other PubSub (WithOnly view) lists it
+   ([safe_sched], a condition on the schedule), buffer sizes being >= 0.
+   Moreover in such runs every channel listed by an unlocked PubSub is open. *)
+Theorem C10_no_panic_quiesced : forall timeout cb defbuf progs s,
+  (0 <= defbuf)%Z -> (forall p cl, In p progs -> In cl p -> call_ok cl) ->
+  safe_sched (init timeout cb defbuf progs) s ->
+  c_panic (run (init timeout cb defbuf progs) s) = None /\ open_inv (run (init timeout cb defbuf progs) s).
+Proof. exact no_panic_safe. Qed.
+Print Assumptions C10_no_panic_quiesced.
+
+(* Runs whose publishes are all PubSync/PubSliceSync (any Sub, SubBuf, Unsub,
+   UnsubAll, receives; no WithOnly) never panic, under every schedule. *)
+Theorem C10_no_panic_sync : forall timeout cb defbuf progs s,
+  (0 <= defbuf)%Z -> (forall p cl, In p progs -> In cl p -> call_ok cl /\ sync_only_call cl) ->
+  c_panic (run (init timeout cb defbuf progs) s) = None.
+Proof. exact no_panic_sync. Qed.
+Print Assumptions C10_no_panic_sync.
+
+(* The known finding (DESIGN section 5 row 13), in theorem form: one
+   unbuffered subscriber nobody receives from, Pub 5, then Unsub: the sender
+   goroutine sends on the closed channel after both calls returned normally. *)
 Theorem C10_async_unsub_panic_reachable :
   exists progs s, Panicked (run (init 0%Z false 0%Z progs) s) /\
     c_panic (run (init 0%Z false 0%Z progs) s) = Some SendOnClosed /\
@@ -10,3 +266,37 @@ Theorem C10_async_unsub_panic_reachable :
                 th_rets th = [RChan 0; RUnit; RNil]).
 Proof. exact async_unsub_panic_reachable. Qed.
 Print Assumptions C10_async_unsub_panic_reachable.
+
+(* Observation (reported, not among the known findings because DESIGN 6/C10
+   reads views as snapshots that are outside the property once stale):
+   s := SubBuf(1); v := WithOnly(s); Unsub(s); v.PubSync(1) panics with "send on
+   closed channel", sequentially. The model reproduces the real behaviour. *)
+Theorem C10_stale_view_panic_reachable :
+  c_panic (run (init 0%Z false 0%Z [[CSubBuf 0 1%Z; CWithOnly 0 (Some 0); CUnsub 0 (Some 0); CPubOne Sync 1 1%Z]])
+               (repeat (0, Plain) 9)) = Some SendOnClosed.
+Proof. exact stale_view_panic_reachable. Qed.
+Print Assumptions C10_stale_view_panic_reachable.
+
+(* Non-vacuity: two subscribers (buffers 2 and 0) and a range receiver on the
+   unbuffered one; PubSliceSync of two events; Unsub of a subscribed channel, of
+   an unknown one and of nil; WithOnly. Evaluated. *)
+Example C10_example :
+  let progs := [[CSubBuf 0 2%Z; CSubBuf 0 0%Z; CPubSlice Sync 0 [7; 8]%Z; CUnsub 0 (Some 1); CUnsub 0 (Some 5);
+                 CUnsub 0 None; CWithOnly 0 (Some 0)];
+                [CRange 1]] in
+  let s := [(0, Plain); (0, Plain); (0, Plain); (0, Plain);            (* SubBuf 2; SubBuf 0 *)
+            (0, Plain); (0, Plain); (0, With 1); (0, Plain); (0, With 1); (0, Plain);
+                                                                       (* RLock; 7->buffer of 0; 7->receiver; 8; 8; RUnlock *)
+            (0, Plain); (0, Plain); (0, Plain);                        (* Unsub 1: Lock; close + splice; Unlock *)
+            (1, Plain);                                                (* the range loop sees the close *)
+            (0, Plain); (0, Plain); (0, Plain); (0, Plain); (0, Plain)] in
+  let c := run (init 0%Z true 0%Z progs) s in
+  c_panic c = None /\
+  map (@th_rets) (c_threads c) =
+    [[RChan 0; RChan 1; RUnit; RNil; RErr ErrAlreadyUnsubscribed; RErr ErrSubscriptionNotInitalized; RView 1];
+     [RRange [7; 8]%Z]] /\
+  handed_to 0 c = [7; 8]%Z /\ handed_to 1 c = [7; 8]%Z /\ received_from 1 c = [7; 8]%Z /\
+  map o_subs (c_objs c) = [[0]; [0]] /\
+  res_count (CallId 0 2 (true, Sync)) (1, 8%Z, 1) c = 1 /\ exp_count (CallId 0 2 (true, Sync)) (1, 8%Z, 1) c = 1 /\
+  rev (res_rev (CallId 0 2 (true, Sync)) (c_trace c)) = [(0, 7%Z, 0); (0, 7%Z, 1); (1, 8%Z, 0); (1, 8%Z, 1)].
+Proof. vm_compute. repeat split. Qed.
